@@ -123,8 +123,8 @@ CHECKS["C05"] = {
             "C05_binary_is_the_check), likewise unary operators; is_assignable = spec_assignable (no implicit conversion other than literal class -> concrete "
             "type, enum alias, object upcast); `as` is accepted exactly for the documented casts (C05_cast); deduce_concrete_type = the one common type "
             "(C05_common_type); the constant-folding path admits operand types exactly when the run-time path does, what it rejects beyond that are value "
-            "errors (C05_const_dyn_agree; only exception null == null). WHOLE EXPRESSIONS of the fragment literals / locals / objects by id / this / property reads o.p / subscripts o[i] / casts / unary / binary incl. && || / ?: in "
-            "any nesting: whatever the translator accepts has a derivation in the declarative relation Typed built from those tables, with the returned operand's type "
+            "errors (C05_const_dyn_agree; only exception null == null). WHOLE EXPRESSIONS of the fragment literals / locals / objects by id / this / property reads o.p / subscripts o[i] / casts / unary / binary incl. && || / ?: / list expressions / method calls / "
+            "Math.max,min / qsTr / console.* / assignments to variables, properties and list elements, in any nesting: whatever the translator accepts has a derivation in the declarative relation Typed built from those tables, with the returned operand's type "
             "(C05_accepted_expressions_are_typed, induction over expressions through the builder monad; contrapositive C05_ill_typed_expressions_are_rejected). "
             "Other programs are decided one by one: the real tir::build* against the model on the "
             "EXHAUSTIVE operator table (25 binary operators x 28 x 28 operand representatives, unary, 16 cast targets, Math.max/min, ternary, conditions, "
@@ -133,7 +133,7 @@ CHECKS["C05"] = {
     "technique": "Coq proofs that each typing decision equals a declarative table + exhaustive differential execution over the operator/operand-type table + spec verdict oracle",
     "design_ref": "5 C05",
     "note": "Trusted: harness `vh tir` over the synthetic environment E0 (resolution errors of the type map are C17's subject), vlib/tirtok.py. NOT proved: the whole-program statement beyond the "
-            "expression fragment above (calls, arrays, assignments, implicit this-properties, enum and type names, statements), and the converse direction (well typed => accepted, which also "
+            "expression fragment above (names resolving to an implicit this-member, an enum variant or a type; statements: conditions, declarations, return types), and the converse direction (well typed => accepted, which also "
             "needs the value conditions of the folder); callback-parameter compatibility with the signal is checked under C13.",
 }
 
